@@ -46,10 +46,17 @@ func (g *G) Constraint(depth int) schema.Constraint {
 	}
 	switch k {
 	case 0:
+		if g.oddSchema && g.coin(0.15) {
+			return schema.AnyExpression{} // no expected type at all
+		}
 		return schema.AnyExpression{OfType: g.Type(2), SkipLiteralComplexTypes: g.coin(0.1)}
 	case 1:
 		return schema.LiteralType{Type: g.Type(2), SkipComplexTypes: g.coin(0.1)}
 	case 2:
+		if g.oddSchema && g.coin(0.15) {
+			// a value that is no concrete value
+			return schema.LiteralValue{Value: []cty.Value{cty.NullVal(cty.String), cty.UnknownVal(cty.Bool), cty.NullVal(cty.List(cty.String))}[g.pick(3)], Description: g.desc("lv")}
+		}
 		return schema.LiteralValue{Value: g.Value(g.Type(1)), IsDeprecated: g.coin(0.1), Description: g.desc("lv")}
 	case 3:
 		return schema.Keyword{Keyword: g.id("kw"), Name: []string{"", "keyword-name"}[g.pick(2)], Description: g.desc("kw")}
@@ -495,6 +502,9 @@ func (g *G) addAddress(bs *schema.BlockSchema) {
 // and redrawn.
 func (g *G) Root() *schema.BodySchema {
 	for {
+		// one schema in eight tries constraints that carry no concrete type / value
+		// (whether such a schema is valid is for Validate() to say)
+		g.oddSchema = !g.O.NoOddities && !g.O.Simple && g.coin(0.12)
 		b := &schema.BodySchema{Description: g.desc("root"), Attributes: map[string]*schema.AttributeSchema{}, Blocks: map[string]*schema.BlockSchema{}}
 		for i, n := 0, g.pick(3); i < n; i++ {
 			b.Attributes[g.id("top")] = g.Attr(2, true)
